@@ -62,9 +62,14 @@ CLAIMED = {
         text=("kernel_safe theorems (Props/C14.v, closed): every access of every kernel model is a checked access and none "
               "faults, for ARBITRARY (unsorted) inputs, any mask, empty arrays, any search start/target, plus termination "
               "within the models' fuel; one dead load (unique on an empty array with a shift) is proved to fault in the "
-              "model and is accepted only because its value is unused. Runtime tie (partial): impl == model on exact-fit "
-              "buffers and on interior views with adversarial neighbours, and an AddressSanitizer build of the working "
-              "tree runs the same inputs. Span table and BM25 kernels are not yet in the model."),
+              "model and is accepted only because its value is unused. Also proved: the BM25 pointer walk is safe exactly "
+              "when doc_lens is long enough and both call sites (fresh index, any chain of selections) satisfy that; "
+              "the span search (_intersect_all + _span_freqs with its 512-slot table) never faults for arbitrary "
+              "postings and terminates, and slop_freqs on an indexed corpus is safe incl. the scatter. Runtime tie "
+              "(partial): impl == model on three memory layouts (exact-fit; interior, possibly strided views whose "
+              "neighbour and gap words are adversarial; other fillers) which must agree with each other, and an "
+              "AddressSanitizer build of the working tree runs the kernel inputs plus index / query / slop / score "
+              "workloads."),
         design_ref="DESIGN.md 7 (C14)",
         note=COMMON_NOTE + "The theorem is about the model's accesses; real accesses are observed by ASan, not proved. "
              "Compiler-introduced accesses, alignment and the allocator are outside the model. No axioms.",
@@ -173,9 +178,12 @@ CLAIMED = {
               "filtered-postings caches, the filter reset of a sliced view's parent, fresh output vectors): the cache "
               "invariant holds initially and is preserved by EVERY operation; under it every output of every operation "
               "equals the history-free answer, so a repeated query returns its first answer after ANY operation sequence, "
-              "arrays are only appended and the heap only grows. PARTIAL: two facts about the immutable postings are "
+              "arrays are only appended and the heap only grows. Generic form: two facts about the immutable postings are "
               "explicit premises (slicing twice = slicing once; a document's phrase count depends only on its own "
-              "postings); View_Phrase2.v proves both for indexed corpora on a restricted domain. The check runs the "
+              "postings). PREMISE-FREE form (C07_indexed_*): for every indexed corpus within the limits both are proved, "
+              "on a static boolean operation domain that excludes only, on a view, phrases of >= 2 terms with a position "
+              "range or an immediately repeated term (everything else incl. ranged tf, views of views, copies, scores "
+              "is unrestricted). The check runs the "
               "machine against the real objects op by op on random histories, repeats every query at the end and under "
               "another history, and checks earlier returned arrays are unmodified."),
         design_ref="DESIGN.md 7 (C07)",
@@ -238,9 +246,12 @@ CLAIMED = {
               "the shared state of Purity.v: handle read + filtered-postings fill, doc-freq cache, term-freq cache, the "
               "handle reset of slicing): in EVERY schedule a finished thread holds the history-free answer computed on "
               "the initial pool; any schedule that lets every thread finish gives the results of the serial schedule; "
-              "the serial schedule always finishes. PARTIAL: the two postings premises of C07 (the phrase one in a "
-              "per-term mixed form) are explicit; the real scheduler, preemption inside an action, dict atomicity under "
-              "the GIL and nogil sections cannot be exhibited by the model. The check runs 2..16 real threads released "
+              "the serial schedule always finishes. Generic form: the two postings premises of C07 (the phrase one in a "
+              "per-term mixed form) are explicit; PREMISE-FREE form (C20_indexed_*): proved for every indexed corpus, any "
+              "pool reached by an in-domain history, the only restriction being concurrent phrase queries on a view "
+              "with an immediately repeated term; none at all on a fresh index. PARTIAL for the runtime: the real "
+              "scheduler, preemption inside an action, dict atomicity under the GIL and nogil sections cannot be "
+              "exhibited by the model. The check runs 2..16 real threads released "
               "from a barrier at switch intervals down to 1 microsecond against shared arrays and views, compares with "
               "serial execution on fresh pools and with the model under seeded schedules."),
         design_ref="DESIGN.md 7 (C20)",
